@@ -38,6 +38,14 @@
 
 extern "C" {
 #include "util/threadpool.h"
+#include "sqfs/block_processor.h"
+#include "sqfs/block_writer.h"
+#include "sqfs/frag_table.h"
+#include "sqfs/compressor.h"
+#include "sqfs/inode.h"
+#include "sqfs/block.h"
+#include "sqfs/error.h"
+#include "sqfs/io.h"
 }
 
 // ------------------------------------------------------------------------------------------------ scheduler
@@ -368,8 +376,12 @@ static int worker_cb(void *user, void *work)
 	return (failmask >> it->idx) & 1 ? it->idx + 1 : 0;
 }
 
+static int run_blockproc(int W, int N, const std::string &spec);
+
 static int run_client(int W, int N, const std::string &prog)
 {
+	if (prog.size() > 2 && prog[0] == 'B' && prog[1] == ':')
+		return run_blockproc(W, N, prog.substr(2));
 	LThread *main_t = new LThread();
 	main_t->id = 0;
 	main_t->real = pthread_self();
@@ -461,6 +473,244 @@ static int run_client(int W, int N, const std::string &prog)
 	return 0;
 }
 
+// ------------------------------------------------------------------------------------------------ block processor client
+// prog "B:<size><tag>[!flags],..." : files packed through sqfs_block_processor_* with W workers and backlog N on an in-memory
+// output file.  Same tag + same size = identical contents; tag 'z' = zeros.  Invariants per schedule: every file can be read
+// back from (block list, fragment) byte-exact, and the digest of (output bytes, inodes, fragment table) equals expect_digest.
+static unsigned long long expect_digest = 0;
+static bool have_expect = false;
+
+struct MemFile {
+	sqfs_file_t base;
+	std::vector<unsigned char> *data;
+};
+
+static int mf_read_at(sqfs_file_t *f, sqfs_u64 off, void *buf, size_t size)
+{
+	MemFile *m = (MemFile *)f;
+	if (off > m->data->size() || size > m->data->size() - off)
+		return SQFS_ERROR_OUT_OF_BOUNDS;
+	memcpy(buf, m->data->data() + off, size);
+	return 0;
+}
+
+static int mf_write_at(sqfs_file_t *f, sqfs_u64 off, const void *buf, size_t size)
+{
+	MemFile *m = (MemFile *)f;
+	if (off + size > m->data->size())
+		m->data->resize(off + size, 0);
+	memcpy(m->data->data() + off, buf, size);
+	return 0;
+}
+
+static sqfs_u64 mf_get_size(const sqfs_file_t *f) { return ((const MemFile *)f)->data->size(); }
+static int mf_truncate(sqfs_file_t *f, sqfs_u64 size) { ((MemFile *)f)->data->resize(size, 0); return 0; }
+static const char *mf_name(sqfs_file_t *) { return "mem"; }
+static void mf_destroy(sqfs_object_t *o) { MemFile *m = (MemFile *)o; delete m->data; free(m); }
+
+static unsigned long long fnv64(unsigned long long h, const void *p, size_t n)
+{
+	const unsigned char *b = (const unsigned char *)p;
+	for (size_t i = 0; i < n; ++i)
+		h = (h ^ b[i]) * 1099511628211ULL;
+	return h;
+}
+
+struct BFile { size_t size; char tag; unsigned flags; std::vector<unsigned char> data; sqfs_inode_generic_t *inode = nullptr; };
+
+static std::vector<unsigned char> gen_content(char tag, size_t size)
+{
+	std::vector<unsigned char> v(size, 0);
+	if (tag == 'z')
+		return v;
+	unsigned long long x = 0x9E3779B97F4A7C15ULL * (unsigned char)tag + 12345;
+	bool compressible = (tag >= 'A' && tag <= 'Z');
+	for (size_t i = 0; i < size; ++i) {
+		x ^= x << 13; x ^= x >> 7; x ^= x << 17;
+		v[i] = compressible ? (unsigned char)('a' + (x % 3) + (i / 64) % 5) : (unsigned char)(x >> 24);
+	}
+	return v;
+}
+
+static int run_blockproc(int W, int N, const std::string &spec)
+{
+	LThread *main_t = new LThread();
+	main_t->id = 0;
+	main_t->real = pthread_self();
+	pthread_cond_init(&main_t->cv, nullptr);
+	threads.push_back(main_t);
+	cur = 0;
+
+	const size_t B = 4096;
+	std::vector<BFile> files;
+	size_t pos = 0;
+	while (pos < spec.size()) {
+		size_t e = spec.find(',', pos);
+		if (e == std::string::npos)
+			e = spec.size();
+		std::string ent = spec.substr(pos, e - pos);
+		pos = e + 1;
+		if (ent.empty())
+			continue;
+		BFile f;
+		char *endp;
+		f.size = strtoul(ent.c_str(), &endp, 10);
+		f.tag = *endp ? *endp : 'a';
+		f.flags = 0;
+		if (*endp && endp[1] == '!')
+			f.flags = (unsigned)strtoul(endp + 2, nullptr, 0) & SQFS_BLK_USER_SETTABLE_FLAGS;
+		f.data = gen_content(f.tag, f.size);
+		files.push_back(f);
+	}
+	MemFile *mf = (MemFile *)calloc(1, sizeof(MemFile));
+	mf->data = new std::vector<unsigned char>();
+	sqfs_object_init(mf, mf_destroy, nullptr);
+	mf->base.read_at = mf_read_at;
+	mf->base.write_at = mf_write_at;
+	mf->base.get_size = mf_get_size;
+	mf->base.truncate = mf_truncate;
+	mf->base.get_filename = mf_name;
+	mf->data->resize(96, 0xEE);          // stands for the super block: data starts behind it
+
+	sqfs_compressor_config_t cfg;
+	sqfs_compressor_t *cmp = nullptr, *uncmp = nullptr;
+	sqfs_compressor_config_init(&cfg, SQFS_COMP_GZIP, B, 0);
+	if (sqfs_compressor_create(&cfg, &cmp) != 0)
+		report_and_exit("error", "compressor");
+	sqfs_compressor_config_init(&cfg, SQFS_COMP_GZIP, B, SQFS_COMP_FLAG_UNCOMPRESS);
+	if (sqfs_compressor_create(&cfg, &uncmp) != 0)
+		report_and_exit("error", "uncompressor");
+	sqfs_block_writer_t *wr = sqfs_block_writer_create(&mf->base, 0);
+	sqfs_frag_table_t *tbl = sqfs_frag_table_create(0);
+	if (!wr || !tbl)
+		report_and_exit("error", "writer / fragment table");
+	sqfs_block_processor_desc_t desc;
+	memset(&desc, 0, sizeof(desc));
+	desc.size = sizeof(desc);
+	desc.max_block_size = B;
+	desc.num_workers = W;
+	desc.max_backlog = N;
+	desc.cmp = cmp;
+	desc.wr = wr;
+	desc.tbl = tbl;
+	desc.file = &mf->base;
+	desc.uncmp = uncmp;
+	sqfs_block_processor_t *proc = nullptr;
+	if (sqfs_block_processor_create_ex(&desc, &proc) != 0)
+		report_and_exit("error", "block processor");
+	for (auto &f : files) {
+		int r = sqfs_block_processor_begin_file(proc, &f.inode, nullptr, f.flags);
+		if (r)
+			inv_fail("begin_file failed: " + std::to_string(r));
+		// feed in two pieces so that append has to assemble blocks
+		size_t half = f.size / 3;
+		r = sqfs_block_processor_append(proc, f.data.data(), half);
+		if (!r)
+			r = sqfs_block_processor_append(proc, f.data.data() + half, f.size - half);
+		if (r)
+			inv_fail("append failed: " + std::to_string(r));
+		r = sqfs_block_processor_end_file(proc);
+		if (r)
+			inv_fail("end_file failed: " + std::to_string(r));
+	}
+	{
+		int r = sqfs_block_processor_finish(proc);
+		if (r)
+			inv_fail("finish failed: " + std::to_string(r));
+	}
+	// read every file back from the output
+	unsigned long long h = 1469598103934665603ULL;
+	std::vector<unsigned char> &out = *mf->data;
+	std::vector<unsigned char> tmp(B), blk(B);
+	for (size_t fi = 0; fi < files.size(); ++fi) {
+		BFile &f = files[fi];
+		if (f.inode == nullptr)
+			inv_fail("file without inode");
+		sqfs_u64 fsize = 0, start = 0;
+		sqfs_u32 fidx = 0, foff = 0;
+		sqfs_inode_get_file_size(f.inode, &fsize);
+		sqfs_inode_get_file_block_start(f.inode, &start);
+		sqfs_inode_get_frag_location(f.inode, &fidx, &foff);
+		size_t nb = sqfs_inode_get_file_block_count(f.inode);
+		if (fsize != f.size)
+			inv_fail("file " + std::to_string(fi) + ": inode size differs from the data fed in");
+		std::vector<unsigned char> got;
+		sqfs_u64 p = start;
+		for (size_t k = 0; k < nb; ++k) {
+			sqfs_u32 w = f.inode->extra[k];
+			size_t dsz = SQFS_ON_DISK_BLOCK_SIZE(w);
+			size_t want = std::min<size_t>(B, f.size - got.size());
+			if (dsz == 0) {
+				got.insert(got.end(), want, 0);
+				continue;
+			}
+			if (p + dsz > out.size())
+				inv_fail("file " + std::to_string(fi) + ": block beyond the end of the output");
+			if (SQFS_IS_BLOCK_COMPRESSED(w)) {
+				sqfs_s32 r = uncmp->do_block(uncmp, out.data() + p, dsz, blk.data(), B);
+				if (r <= 0)
+					inv_fail("file " + std::to_string(fi) + ": block does not unpack");
+				got.insert(got.end(), blk.begin(), blk.begin() + r);
+			} else {
+				got.insert(got.end(), out.begin() + p, out.begin() + p + dsz);
+			}
+			p += dsz;
+		}
+		if (got.size() < f.size) {
+			if (fidx == 0xFFFFFFFF)
+				inv_fail("file " + std::to_string(fi) + ": data missing and no fragment");
+			sqfs_fragment_t fr;
+			if (sqfs_frag_table_lookup(tbl, fidx, &fr) != 0)
+				inv_fail("file " + std::to_string(fi) + ": fragment index out of range");
+			size_t dsz = SQFS_ON_DISK_BLOCK_SIZE(fr.size);
+			if (fr.start_offset + dsz > out.size())
+				inv_fail("file " + std::to_string(fi) + ": fragment block beyond the end of the output");
+			size_t fl;
+			const unsigned char *fb;
+			if (SQFS_IS_BLOCK_COMPRESSED(fr.size)) {
+				sqfs_s32 r = uncmp->do_block(uncmp, out.data() + fr.start_offset, dsz, blk.data(), B);
+				if (r <= 0)
+					inv_fail("file " + std::to_string(fi) + ": fragment block does not unpack");
+				fl = r;
+				fb = blk.data();
+			} else {
+				fl = dsz;
+				fb = out.data() + fr.start_offset;
+			}
+			size_t need = f.size - got.size();
+			if (foff + need > fl)
+				inv_fail("file " + std::to_string(fi) + ": fragment range outside its block");
+			got.insert(got.end(), fb + foff, fb + foff + need);
+		}
+		if (got.size() != f.size || memcmp(got.data(), f.data.data(), f.size) != 0)
+			inv_fail("file " + std::to_string(fi) + " does not read back byte-exact");
+		h = fnv64(h, &f.inode->base.type, sizeof(f.inode->base.type));
+		h = fnv64(h, &fsize, 8);
+		h = fnv64(h, &start, 8);
+		h = fnv64(h, &fidx, 4);
+		h = fnv64(h, &foff, 4);
+		h = fnv64(h, f.inode->extra, nb * 4);
+	}
+	size_t nfr = sqfs_frag_table_get_size(tbl);
+	for (size_t i = 0; i < nfr; ++i) {
+		sqfs_fragment_t fr;
+		sqfs_frag_table_lookup(tbl, i, &fr);
+		h = fnv64(h, &fr.start_offset, 8);
+		h = fnv64(h, &fr.size, 4);
+	}
+	h = fnv64(h, out.data(), out.size());
+	sqfs_drop(proc);
+	for (auto *t : threads)
+		if (t->id != 0 && t->st != FINISHED)
+			inv_fail("block processor destroyed while a worker thread is still alive");
+	char msg[64];
+	snprintf(msg, sizeof(msg), "%llx", h);
+	if (have_expect && h != expect_digest)
+		inv_fail(std::string("output bytes / inodes depend on the schedule: digest ") + msg);
+	report_and_exit("ok", msg);
+	return 0;
+}
+
 // ------------------------------------------------------------------------------------------------ drivers
 static std::string run_forked(int W, int N, unsigned fm, const std::string &prog, int bound, const std::vector<int> &prefix, bool rnd, unsigned long long seed, int &status)
 {
@@ -489,6 +739,18 @@ static std::string run_forked(int W, int N, unsigned fm, const std::string &prog
 	close(p[0]);
 	waitpid(pid, &status, 0);
 	return out;
+}
+
+// the first execution of a block processor program defines the digest that all other schedules have to reproduce
+static void learn_digest(const std::string &prog, const std::string &out)
+{
+	if (have_expect || prog.compare(0, 2, "B:") != 0)
+		return;
+	size_t p = out.find("\"result\": \"ok\", \"msg\": \"");
+	if (p == std::string::npos)
+		return;
+	expect_digest = strtoull(out.c_str() + p + 24, nullptr, 16);
+	have_expect = true;
 }
 
 static std::vector<Step> parse_trace(const std::string &s)
@@ -526,6 +788,10 @@ int main(int argc, char **argv)
 		for (int i = 7; i < argc; ++i)
 			choices.push_back(atoi(argv[i]));
 		failmask = fm;
+		if (getenv("VSCHED_EXPECT")) {
+			expect_digest = strtoull(getenv("VSCHED_EXPECT"), nullptr, 16);
+			have_expect = true;
+		}
 		alarm(20);
 		return run_client(W, N, prog);
 	}
@@ -535,6 +801,11 @@ int main(int argc, char **argv)
 		long done = 0, nontrivial = 0;
 		for (long i = 0; i < count; ++i) {
 			int status = 0;
+			if (i == 0 && prog.compare(0, 2, "B:") == 0) {
+				// reference: the schedule without any preemption
+				std::string ref = run_forked(W, N, fm, prog, 0, {}, false, 0, status);
+				learn_digest(prog, ref);
+			}
 			std::string out = run_forked(W, N, fm, prog, -1, {}, true, seed * 1000003ULL + i, status);
 			done++;
 			if (out.find("\"preemptions\": 0,") == std::string::npos)
@@ -558,6 +829,7 @@ int main(int argc, char **argv)
 		int status = 0;
 		std::string out = run_forked(W, N, fm, prog, bound, prefix, false, 0, status);
 		execs++;
+		learn_digest(prog, out);
 		std::vector<Step> tr = parse_trace(out);
 		if (out.find("\"preemptions\": 0,") == std::string::npos)
 			nontrivial++;
